@@ -155,7 +155,7 @@ class TreeGen:
     def __init__(s, rng, maxdepth):
         s.r, s.maxd = rng, maxdepth
 
-    def builtin(s, cls, nonzero=False, exact_int=None):
+    def builtin(s, cls, exact_int=None):
         """a built-in operand; for mpz arithmetic doubles are integer-valued [M6]"""
         r = s.r
         if exact_int is None: exact_int = (cls == 'Z')
@@ -291,13 +291,12 @@ class Emit:
     def operand(s, cls, n, P):
         return s.lift(cls, n, P) if n.cls == 'B' else s.ref(n, P)
 
-    def binop(s, cls, op, a, b, P, xa=None):
-        """a op b into a fresh temporary; xa: C operand already computed for a"""
+    def binop(s, cls, op, a, b, P):
+        """a op b into a fresh temporary"""
         bv = [s.bval(k) if (cls == 'F' and k.cls == 'B' and BKIND[k.bt] != 'd') else None for k in (a, b)]
         ops = []
         for k, v in zip((a, b), bv):
-            if k is a and xa: ops.append(xa)
-            elif v is not None:
+            if v is not None:
                 t = s.tmp(cls, P); s.L.append(SETB[(cls, BKIND[k.bt])].format(t=t, v=v)); ops.append(t)
             else: ops.append(s.operand(cls, k, P))
         x, y = ops
